@@ -274,7 +274,9 @@ func (w *kqueue) AddWith(name string, opts ...addOpt) error {
 	if err != nil {
 		return err
 	}
-	w.watches.addUserWatch(name)
+	// Use the same spelling as the other tables (and Remove()) do, or the path
+	// stays listed after it's removed.
+	w.watches.addUserWatch(filepath.Clean(name))
 	return nil
 }
 
